@@ -670,8 +670,11 @@ class functiontype_with_runtime_reqs:
 
     def ensures(self, runtime_reqs, result):
         return {"same_rows": sig_is(result, self.input, self.output),
-                "reqs_kept": forall(str, lambda e: implies(contains(self.runtime_reqs, e), contains(result.runtime_reqs, e))),
-                "reqs_added": forall(str, lambda e: implies(contains(runtime_reqs, e), contains(result.runtime_reqs, e)))}
+                "reqs_kept": forall(int, lambda j: implies(0 <= j and j < len(old(self.runtime_reqs)),
+                                                           exists(int, lambda k: 0 <= k and k < len(result.runtime_reqs) and nth(result.runtime_reqs, k) == nth(old(self.runtime_reqs), j)))),
+                "reqs_added": forall(int, lambda j: implies(0 <= j and j < len(runtime_reqs),
+                                                            exists(int, lambda k: 0 <= k and k < len(result.runtime_reqs) and nth(result.runtime_reqs, k) == nth(runtime_reqs, j)))),
+                "no_duplicates": forall((int, int), lambda k, k2: implies(0 <= k and k < k2 and k2 < len(result.runtime_reqs), nth(result.runtime_reqs, k) != nth(result.runtime_reqs, k2)))}
 
 
 @spec
